@@ -114,6 +114,10 @@ impl ProcessState {
             // Opening creates an empty database file when there is none.
             db = connect(&e, &dbfile)
                 .map_err(|e| RedoError::new(format!("could not connect: {}", e)))?;
+            #[cfg(feature = "verif")]
+            if !existed {
+                crate::verif::point("init.connect", "create");
+            }
             // A run id is inserted below when we do not inherit one: take the write
             // lock up front, because a transaction that reads first and writes later
             // fails with SQLITE_BUSY as soon as another process commits in between.
